@@ -737,10 +737,10 @@ class ProcessingPipeline:
         init=False, compare=False, default_factory=list
     )  # list of applied items as booleans. If True, the corresponding item at the same position was applied
     applied_ids: set[str] = field(
-        init=False, compare=False, default_factory=set
+        init=False, compare=False, default_factory=set, repr=False
     )  # set of identifiers of applied items, doesn't contains items without identifier
     field_name_applied_ids: dict[str, set[str]] = field(
-        init=False, compare=False, default_factory=partial(defaultdict, set)
+        init=False, compare=False, default_factory=partial(defaultdict, set), repr=False
     )  # Mapping of field names from rule fields list to set of applied processing items
     field_mappings: FieldMappingTracking = field(
         init=False, compare=False, default_factory=FieldMappingTracking
